@@ -32,6 +32,11 @@ def TablesConform (T : Tables) : Prop := T.fmt = refFmt ∧ T.vdi = refVdi ∧ T
 
 instance (T : Tables) : Decidable (TablesConform T) := by unfold TablesConform; infer_instance
 
+/-- the standard's tables as a concrete `Tables` value (empty ECI registry) -/
+def refTables : Tables := ⟨refFmt, QRRef.formatMask, refVdi, refVersions, []⟩
+
+theorem refTables_conform : TablesConform refTables := ⟨rfl, rfl, rfl⟩
+
 theorem refFmt_minDist : MinDist 7 (refFmt.map (·.1)) := by decide +kernel
 theorem refVdi_minDist : MinDist 8 refVdi := by decide +kernel
 theorem formatWord_lt : ∀ d ∈ List.range 32, QRRef.formatWordOfData d < 2 ^ 15 := by decide +kernel
